@@ -242,13 +242,19 @@ func (conn *Conn) send(call *Call) {
 	ctx.ServiceMethod = call.ServiceMethod
 	err := conn.codec.WriteRequest(&ctx, call.Args)
 	if err != nil {
+		// Only the path that removes the call from the pending table may
+		// complete it: if the reader has already completed it (its response or
+		// the end of the connection came first) it must not be touched again.
 		conn.mutex.Lock()
-		delete(conn.pending, seq)
-		if call.upgrade.Stream == openStream {
-			delete(conn.streams, seq)
+		owner := !isStreaming && conn.pending[seq] == call
+		if owner {
+			delete(conn.pending, seq)
+			if call.upgrade.Stream == openStream {
+				delete(conn.streams, seq)
+			}
 		}
 		conn.mutex.Unlock()
-		if call != nil {
+		if owner {
 			call.Error = err
 			call.done()
 		}
@@ -283,7 +289,8 @@ func (conn *Conn) recv() {
 	if err == io.EOF {
 		err = ErrShutdown
 	}
-	for _, call := range conn.pending {
+	for seq, call := range conn.pending {
+		delete(conn.pending, seq)
 		call.Error = err
 		call.done()
 	}
